@@ -375,13 +375,13 @@ Section Proofs.
   Proof.
     induction ops as [|o ops IH]; intros a ov rs alive a' ov' F I H; cbn [BorshAccount.run_ops] in H.
     - injection H as <- <- <- <-. auto.
-    - inversion F as [|? ? Wo F']; subst.
+    - pose proof (Forall_inv F) as Wo. pose proof (Forall_inv_tail F) as F'.
       destruct (step true pid w o a ov) as [[r a1] ov1] eqn:Es.
       apply step_inv in Es as [I1 W1]; auto.
       destruct (is_panic T r).
       + injection H as <- <- <- <-. auto.
       + destruct (run_ops true pid w ops a1 ov1) as [[[rs' al'] a2] ov2] eqn:Er.
-        injection H as <- <- <- <-. eapply IH in Er as [I2 W2]; eauto. split; auto. congruence.
+        injection H as <- <- <- <-. eapply IH in Er as [I2 W2]; [|exact F'|exact I1]. split; [auto|congruence].
   Qed.
 
   Lemma begin_ok wr a : acct_ok a -> acct_ok (begin_instr wr a).
@@ -440,7 +440,10 @@ Section Proofs.
           - right; left. intros E'. rewrite E', list_eqb_refl in C. discriminate.
           - right; right. zb. lia. }
         assert (b_writable a1 = false) as Wf.
-        { destruct (b_writable a1); [|reflexivity]. rewrite serialize_cond_true in C; auto. }
+        { destruct (b_writable a1) eqn:Ew; [|reflexivity]. exfalso.
+          rewrite Ho, list_eqb_refl in C.
+          assert (zlen (b_data a1) >? wz = true) as Eg by (rewrite Z.gtb_ltb; apply Z.ltb_lt; lia).
+          rewrite Eg in C. discriminate. }
         split.
         * unfold good. repeat split; auto.
         * intros E. congruence.
@@ -462,7 +465,7 @@ Section Proofs.
     Forall (fun r => acct_ok (r_acct r)) (exec_seq true pid w d a l).
   Proof.
     induction l as [|i l IH]; intros a Hok F; cbn [BorshAccount.exec_seq]; [constructor|].
-    inversion F; subst. pose proof (exec_acct_ok a i Hok ltac:(assumption)).
+    pose proof (Forall_inv F) as Wi. pose proof (Forall_inv_tail F) as F'. pose proof (exec_acct_ok a i Hok Wi).
     constructor; auto.
   Qed.
 
@@ -475,13 +478,13 @@ Section Proofs.
     r_tfa r' = Ok (Some v) /\ client (b_data (r_acct r)) = Ok v.
   Proof.
     induction l as [|i l IH]; intros a k r r' v Hok F Hk Hk'; [destruct k; discriminate|].
-    inversion F as [|? ? Wi F']; subst. cbn [BorshAccount.exec_seq] in Hk, Hk'.
+    pose proof (Forall_inv F) as Wi. pose proof (Forall_inv_tail F) as F'. cbn [BorshAccount.exec_seq] in Hk, Hk'.
     destruct k as [|k].
     - cbn [nth_error] in Hk, Hk'. injection Hk as <-.
       destruct l as [|i' l]; [discriminate|]. cbn [BorshAccount.exec_seq nth_error] in Hk'. injection Hk' as <-.
       intros He Ho Hl. rewrite exec_tfa.
       pose proof (persist a i v Hok Wi He Ho Hl) as [P1 P2]. split; auto.
-    - cbn [nth_error] in Hk, Hk'. eapply IH; eauto. now apply exec_acct_ok.
+    - exact (IH (r_acct (exec_instr true pid w d a i)) k r r' v (exec_acct_ok a i Hok Wi) F' Hk Hk').
   Qed.
 
   (* ---------------- len_exact ---------------- *)
@@ -534,7 +537,7 @@ Section Proofs.
     intros Hw Hc Hn. unfold BorshAccount.exec_instr.
     destruct (tfa (begin_instr (i_wr i) a)) as [ov| | |]; cbn [r_acct]; try reflexivity.
     destruct (run_ops fixed pid w (i_ops i) (begin_instr (i_wr i) a) ov) as [[[rs alive] a1] ov1] eqn:Er.
-    apply run_ops_readonly in Er as [D1 W1]; auto; [|cbn [begin_instr b_writable]; exact Hw].
+    apply run_ops_readonly in Er as [D1 W1]; [|cbn [begin_instr b_writable]; exact Hw|exact Hn].
     cbn [begin_instr b_data] in D1.
     destruct alive; cbn [r_acct]; auto.
     unfold cleanup. rewrite Hc, serialize_noop by now left. cbn [r_acct]. exact D1.
@@ -593,7 +596,7 @@ Section Proofs.
     growth_ok (zlen (b_data a)) vs -> chain a vs.
   Proof.
     induction vs as [|v vs IH]; intros a v0 Hok Ho G F Hg; cbn [chain]; [exact I|].
-    inversion F as [|? ? W F']; subst. cbn [growth_ok] in Hg. destruct Hg as (G1 & G2 & G3).
+    pose proof (Forall_inv F) as W. pose proof (Forall_inv_tail F) as F'. cbn [growth_ok] in Hg. destruct Hg as (G1 & G2 & G3).
     rewrite (set_instr_exec a v0 v Hok Ho G W).
     set (a0 := begin_instr true a).
     assert (b_writable a0 = true /\ zlen (b_data a0) > wz /\ b_owner a0 = pid /\ b_delta a0 = 0 /\ b_data a0 = b_data a)
@@ -627,7 +630,112 @@ Section Proofs.
     assert (b_writable a0 = true /\ zlen (b_data a0) > wz /\ b_owner a0 = pid /\ b_delta a0 = 0 /\ b_data a0 = b_data a)
       as (Aw & Al & Ao & Ad & Adata) by (cbn; repeat split; auto; apply G).
     pose proof (serialize_size a0 v Aw Al Ao) as [_ Hs].
-    rewrite Hs by (rewrite Ad, Adata; lia). cbn [r_end r_acct]. repeat split; auto.
+    rewrite Hs by (rewrite Ad, Adata; unfold MAX_PERMITTED_DATA_INCREASE in *; lia). cbn [r_end r_acct]. repeat split; auto.
     intros wr. pose proof (good_reads a v0 Hok Ho G) as [R _]. exact (R wr).
   Qed.
 End Proofs.
+
+(* ================================================================================================ *)
+(* packaged statements (what Properties/C15.v exposes)                                               *)
+(* what is assumed of a value type's borsh implementation *)
+Record oracle_ok {T} (ser : T -> list Z) (de : list Z -> option (T * list Z)) (wf : T -> Prop) : Prop := mkOracle {
+  o_rt : forall t tl, wf t -> de (ser t ++ tl) = Some (t, tl);
+  o_ne : forall t, wf t -> 0 < zlen (ser t);
+  o_nil : de [] = None;
+  o_dewf : forall bs t tl, de bs = Some (t, tl) -> wf t;
+  o_bytes : forall t, wf t -> bytes_ok (ser t) = true;
+}.
+
+(* the owning program's id is a key, the discriminant has w bytes *)
+Definition prog_ok (pid : key) (w : nat) (d : list Z) : Prop :=
+  key_ok pid /\ length d = w /\ bytes_ok d = true.
+
+Lemma codec_oracle {T} (c : codec T) : codec_ok c -> oracle_ok (c_ser c) (c_de c) (c_wf c).
+Proof. intros [H1 H2 H3 H4 H5]. constructor; auto. Qed.
+
+Section Packaged.
+  Variable T : Type.
+  Variable ser : T -> list Z.
+  Variable de : list Z -> option (T * list Z).
+  Variable wf : T -> Prop.
+  Variable pid : key.
+  Variable w : nat.
+  Variable d : list Z.
+  Hypothesis HO : oracle_ok ser de wf.
+  Hypothesis HP : prog_ok pid w d.
+
+  Let Hrt := o_rt _ _ _ HO.
+  Let Hne := o_ne _ _ _ HO.
+  Let Hdewf := o_dewf _ _ _ HO.
+  Let Hbytes := o_bytes _ _ _ HO.
+  Let Hpid := proj1 HP.
+  Let Hdl := proj1 (proj2 HP).
+  Let Hdb := proj2 (proj2 HP).
+
+  Lemma p_persist a i v : acct_ok a -> instr_wf T wf i ->
+    let r := exec_instr T ser de true pid w d a i in
+    r_end r = IDone (Some v) -> b_owner (r_acct r) = pid -> zlen (b_data (r_acct r)) > Z.of_nat w ->
+    (forall wr, try_from_accounts T de pid w d (begin_instr wr (r_acct r)) = Ok (Some v)) /\
+    client_deserialize T de w d (b_data (r_acct r)) = Ok v.
+  Proof. apply (persist T ser de wf pid w d Hrt Hne Hdewf Hbytes Hpid Hdl Hdb). Qed.
+
+  Lemma p_persist_seq l a k r r' v : acct_ok a -> Forall (instr_wf T wf) l ->
+    nth_error (exec_seq T ser de true pid w d a l) k = Some r ->
+    nth_error (exec_seq T ser de true pid w d a l) (S k) = Some r' ->
+    r_end r = IDone (Some v) -> b_owner (r_acct r) = pid -> zlen (b_data (r_acct r)) > Z.of_nat w ->
+    r_tfa r' = Ok (Some v) /\ client_deserialize T de w d (b_data (r_acct r)) = Ok v.
+  Proof. apply (persist_seq T ser de wf pid w d Hrt Hne Hdewf Hbytes Hpid Hdl Hdb). Qed.
+
+  Lemma p_len_exact a i v : acct_ok a -> instr_wf T wf i ->
+    let r := exec_instr T ser de true pid w d a i in
+    i_wr i = true -> r_end r = IDone (Some v) -> b_owner (r_acct r) = pid -> zlen (b_data (r_acct r)) > Z.of_nat w ->
+    b_data (r_acct r) = d ++ ser v /\ zlen (b_data (r_acct r)) = Z.of_nat w + zlen (ser v).
+  Proof. apply (len_exact T ser de wf pid w d Hrt Hne Hdewf Hbytes Hpid Hdl Hdb). Qed.
+
+  Lemma p_size_change_ok vs a v0 : acct_ok a -> b_owner a = pid -> good T de w d a v0 -> Forall wf vs ->
+    growth_ok T ser w (zlen (b_data a)) vs -> chain T ser de pid w d a vs.
+  Proof. apply (size_change_ok T ser de wf pid w d Hrt Hne Hbytes Hpid Hdl Hdb). Qed.
+
+  Lemma p_growth_refused a v0 v : acct_ok a -> b_owner a = pid -> good T de w d a v0 -> wf v ->
+    Z.of_nat w + zlen (ser v) - zlen (b_data a) > MAX_PERMITTED_DATA_INCREASE ->
+    let res := exec_instr T ser de true pid w d a (set_instr T v) in
+    r_end res = ICleanupFailed PE_INVALID_ACCOUNT_DATA_REALLOC /\ b_data (r_acct res) = b_data a /\
+    (forall wr, try_from_accounts T de pid w d (begin_instr wr (r_acct res)) = Ok (Some v0)).
+  Proof. apply (growth_refused T ser de wf pid w d Hpid Hdl Hdb). Qed.
+
+  Lemma p_no_write_rejected fixed a i : acct_ok a -> b_owner a <> pid \/ firstn w (b_data a) <> d ->
+    let r := exec_instr T ser de fixed pid w d a i in
+    r_end r = IRejected /\ b_data (r_acct r) = b_data a /\ b_owner (r_acct r) = b_owner a.
+  Proof. apply (no_write_rejected T ser de pid w d Hpid Hdl Hdb). Qed.
+End Packaged.
+
+(* statements that need nothing of the value type's borsh implementation *)
+Section PackagedAny.
+  Variable T : Type.
+  Variable ser : T -> list Z.
+  Variable de : list Z -> option (T * list Z).
+  Variable pid : key.
+  Variable w : nat.
+  Variable d : list Z.
+  Hypothesis HP : prog_ok pid w d.
+  Let Hdl := proj1 (proj2 HP).
+
+  Lemma p_no_write fixed a ov :
+    b_writable a = false \/ b_owner a <> pid \/ zlen (b_data a) <= Z.of_nat w ->
+    serialize T ser fixed pid w a ov = Ok a.
+  Proof. apply (serialize_noop T ser pid w d Hdl). Qed.
+
+  Lemma p_no_write_readonly fixed a i : i_wr i = false -> i_close i = false -> ~ In OClose (i_ops i) ->
+    b_data (r_acct (exec_instr T ser de fixed pid w d a i)) = b_data a.
+  Proof. apply (no_write_readonly T ser de pid w d Hdl). Qed.
+
+  Lemma p_serialize_size a v :
+    b_writable a = true -> zlen (b_data a) > Z.of_nat w -> b_owner a = pid ->
+    let n := Z.of_nat w + zlen (ser v) in
+    (n <= I32_MAX /\ (n = zlen (b_data a) \/ b_delta a + (n - zlen (b_data a)) <= MAX_PERMITTED_DATA_INCREASE) ->
+       exists a', serialize T ser true pid w a (Some v) = Ok a' /\ b_data a' = firstn w (b_data a) ++ ser v /\
+                  zlen (b_data a') = n) /\
+    (~ (n <= I32_MAX /\ (n = zlen (b_data a) \/ b_delta a + (n - zlen (b_data a)) <= MAX_PERMITTED_DATA_INCREASE)) ->
+       serialize T ser true pid w a (Some v) = Err PE_INVALID_ACCOUNT_DATA_REALLOC).
+  Proof. apply (serialize_size T ser pid w d Hdl). Qed.
+End PackagedAny.
